@@ -13,6 +13,35 @@ NOT_APPLICABLE = {}
 HOOK_COMMITS = []
 
 PROPS = {
+    'C14': {
+        'scenarios': ['reify'], 'corr': ['Corr/Reify'], 'case_prefixes': ['cases_reify'],
+        'level': 'proof',
+        'level_text': 'Coq theorems over the model of doReify and the two dispatch tables REGENERATED from reification.go/signaling.go on every run (go/ast): C14_reify_classification (for ANY node, ANY storage behaviour, lazy and preloading reifier: non-dag-pb unchanged; no/undecodable Data -> link map; File/Raw -> bytes kind; Directory/HAMTShard -> map kind; Metadata/Symlink -> link map; every other type number -> error; never a panic), C14_registrations, C14_substrate_is_input. A changed table entry re-opens the proofs. Tied to the code by 600+ nodes per run (every type number incl. negative, all Data forms, valid/invalid shard parameters, link forms, both reifiers, registered and direct entry points, random payloads): class, kind, Substrate() identity and byte-exact re-encoding.',
+        'level_note': 'theorems are about Reify/Model.v + Gen/ReifyTables.v (regenerated) + the codec/file/HAMT models; Substrate() is a trivial projection in the model (the node handed in), its identity and re-encoding are established on the implementation by the per-run oracle; go-ipld-prime node types are represented by their class only',
+        'assumptions': ['the dag-pb codec re-encodes a decoded node to the same bytes (canonical link order)'],
+    },
+    'C02': {
+        'scenarios': ['hamt', 'dirs'], 'corr': ['Corr/Hamt', 'Corr/Dirs'], 'case_prefixes': ['cases_hamt', 'cases_hashbits', 'cases_dirs'],
+        'level': 'proof',
+        'level_text': 'Coq theorems: C02_reader_and_builder_same_bucket, C02_slice_is_msb_first_bits, C02_next_is_msb_first_bits (for EVERY hash, offset and width inside the hash the reader Next and the builder Slice return the same arithmetic most-significant-first bits, bits 48..63 included; per-byte mask/shift code by an exhaustive 256x8x9 sweep lifted with forallb_forall, composition by induction and N arithmetic), C02_too_deep_is_an_error, C02_plain_directory_is_map (EVERY entry list with distinct names: member lookup, non-member not-found, iteration = each entry exactly once, length = count). The sharded map clauses (lookup/iteration/length on built tries) are decided per run by the builder+reader model correspondence and the direct oracle over entry sets incl. hash-colliding names and all fanouts.',
+        'level_note': 'theorems are about the hand-written models Hamt/HashBits.v, Hamt/Build.v (data/builder/dirshard.go, directory.go, util.go), Hamt/Read.v (hamt/shardeddir.go, util.go), Dir/Plain.v; go-bitfield is modelled arithmetically, murmur3 hashes are inputs computed by the harness with the same library; every run compares the DAG built by the library with the model (fingerprint+size) and with boxo (CID+size), and every lookup / iteration event / Length / shard request of the reified directory with the reader model, on library- and boxo-written shards incl. unavailable shards; hashBits.Next/Slice are swept over all offsets x widths through the verif hooks',
+        'partial_clauses': ['sharded directory: lookup/iteration/length = map of entries is established by model correspondence + oracle, theorem in progress (wf_trie)'],
+    },
+    'C08': {
+        'scenarios': ['hamt'], 'corr': ['Corr/Hamt'], 'case_prefixes': ['cases_hamt', 'cases_hashbits'],
+        'level': 'proof',
+        'level_text': 'Coq theorems C08_level_bits_are_msb_first (the hash bits consumed at every level are the MSB-first arithmetic slice, for every depth and fanout, as the reference HAMT does) and C08_link_order_canonical (the encoded link list is independent of assembly order). Byte-identity with boxo (CID and cumulative size) for every sampled entry set x fanout and correct reading of boxo-written shards after random insert/remove histories are decided per run: builder and reader models vs implementation (fingerprint, size, every reply) and the boxo oracle.',
+        'level_note': 'theorems are about the hand-written models Hamt/HashBits.v, Hamt/Build.v (data/builder/dirshard.go, directory.go, util.go), Hamt/Read.v (hamt/shardeddir.go, util.go), Dir/Plain.v; go-bitfield is modelled arithmetically, murmur3 hashes are inputs computed by the harness with the same library; every run compares the DAG built by the library with the model (fingerprint+size) and with boxo (CID+size), and every lookup / iteration event / Length / shard request of the reified directory with the reader model, on library- and boxo-written shards incl. unavailable shards; hashBits.Next/Slice are swept over all offsets x widths through the verif hooks',
+        'partial_clauses': ['whole-DAG equality with boxo and reading of arbitrary boxo histories: correspondence + oracle per run (boxo HAMT itself is not modelled)'],
+    },
+    'C10': {
+        'scenarios': ['hamt', 'files'], 'corr': ['Corr/Hamt', 'Corr/Files'], 'case_prefixes': ['cases_hamt', 'cases_fbuild'],
+        'level': 'proof',
+        'level_text': 'Coq theorems C10_encoded_links_order_independent (stable sort by name of any permutation of a link list with distinct names is the same list: Go map iteration order and entry-slice order cannot influence the encoded block), C10_plain_directory_order_independent (identical block and size), C10_file_build_is_a_function, C10_size_splitter_ignores_fragmentation. Per run: every directory built again from 3 permutations (fresh map seeds), every file built again from 4 fragmenting readers; all (link,size) must coincide and equal the model.',
+        'level_note': 'theorems are about the hand-written models Hamt/HashBits.v, Hamt/Build.v (data/builder/dirshard.go, directory.go, util.go), Hamt/Read.v (hamt/shardeddir.go, util.go), Dir/Plain.v; go-bitfield is modelled arithmetically, murmur3 hashes are inputs computed by the harness with the same library; every run compares the DAG built by the library with the model (fingerprint+size) and with boxo (CID+size), and every lookup / iteration event / Length / shard request of the reified directory with the reader model, on library- and boxo-written shards incl. unavailable shards; hashBits.Next/Slice are swept over all offsets x widths through the verif hooks',
+        'assumptions': ['external chunkers (rabin, buzhash) are fragmentation independent: sampled, not proved'],
+        'partial_clauses': ['sharded directory order independence beyond the link-sort step: correspondence + oracle (canon_unique theorem not yet proved)'],
+    },
     'C01': {
         'scenarios': ['files'], 'corr': ['Corr/Files'], 'case_prefixes': ['cases_fbuild', 'cases_fread_history'],
         'level': 'proof',
